@@ -47,6 +47,43 @@ type VerifC21Env struct {
 	c *cluster
 }
 
+// SetFollower gives the current cluster the local node id, the coordinator id and the cluster
+// state a node has while a resize is under way (plain assignments, no state-change side effects),
+// plus the topology and path mergeClusterStatus needs to record membership changes.
+func (e *VerifC21Env) SetFollower(self, coordinator, state string) {
+	c := e.c
+	c.Node = &Node{ID: self}
+	if n := c.unprotectedNodeByID(self); n != nil {
+		c.Node = n
+	}
+	c.Coordinator = coordinator
+	c.state = state
+	c.Topology = newTopology()
+	for _, n := range c.nodes {
+		c.Topology.addID(n.ID)
+	}
+	c.Path = e.h.Path
+}
+
+// MergeClusterStatus calls cluster.mergeClusterStatus with the ClusterStatus a coordinator
+// broadcasts: its state and its node list (the node with id coordinator carries IsCoordinator).
+func (e *VerifC21Env) MergeClusterStatus(state string, ids []string, coordinator string) error {
+	cs := &ClusterStatus{ClusterID: "verif", State: state}
+	for _, id := range ids {
+		uri := defaultURI()
+		_ = uri.setHost("host-" + id)
+		n := &Node{ID: id, URI: *uri, IsCoordinator: id == coordinator}
+		if id == e.c.Node.ID {
+			n.State = e.c.Node.State
+		}
+		cs.Nodes = append(cs.Nodes, n)
+	}
+	return e.c.mergeClusterStatus(cs)
+}
+
+// ClusterState returns cluster.State().
+func (e *VerifC21Env) ClusterState() string { return e.c.State() }
+
 // VerifC21Open opens a holder at path (nop attribute stores, no translate store).
 func VerifC21Open(path string) (*VerifC21Env, error) {
 	h := NewHolder()
